@@ -1205,8 +1205,10 @@ func (e *Entry) Augment(addErrors bool) (processed, skipped int) {
 			unapplied = append(unapplied, a)
 			continue
 		}
-		if !target.IsDir() {
+		if !target.IsDir() || target.Kind == AnyDataEntry || target.Kind == AnyXMLEntry {
 			// A leaf, leaf-list, anyxml etc. cannot be augmented.
+			// (anydata and anyxml entries are built as directories,
+			// but they cannot have child nodes in the schema.)
 			e.errorf("%s: augment %s: target cannot have child nodes", Source(a.Node), a.Name)
 			processed++
 			continue
